@@ -30,13 +30,22 @@ ASSUMPTIONS = [
     "resolution = source lines of bptkServer.py and bptk.py; Flask/Werkzeug internals and the simulation run unscheduled but atomically (one controlled thread runs at a time)",
     "a refused request (non-200) advances nothing",
 ]
-EXHAUSTIVE_SCOPE = "all schedules with <= 1 preemption for every request list in c18.LISTS; all schedules with 2 preemptions among the first WINDOW scheduling points for the pairs"
+EXHAUSTIVE_SCOPE = ("all schedules with <= 1 preemption for every request list in c18.LISTS; all schedules with 2 preemptions among the first WINDOW "
+                    "scheduling points for the pairs; thorough tier: all schedules with 3 preemptions over the lock-protocol lines (try_lock/lock/unlock/"
+                    "is_locked/release and the entry of each run_step) for the triples in c18.LOCK3_LISTS")
 
 SM, SCN = "smC18", "base"
 TRACE_FILES = ("server/bptkServer.py", "BPTK_Py/bptk.py")
 KINDS = ["step", "steps", "stream"]
 LISTS = [list(p) for p in itertools.product(KINDS, repeat=2)] + [["steps", "step", "stream"], ["stream", "steps", "steps"], ["step", "step", "steps"]]
-WINDOW = 45
+WINDOW = 36
+# focus mode: only the lines of the lock protocol and of the three handlers are scheduling points (fewer points, deeper schedules)
+# lock mode: only the lock protocol itself plus the entry of every run_step call (deep schedules: 3 preemptions exhaustively)
+FOCUS_LOCK = ("try_lock", "lock", "unlock", "is_locked", "release")
+LOCK3_LISTS = [["steps", "stream-abort", "steps"], ["stream-abort", "steps", "steps"], ["steps", "steps-poisoned", "steps"],
+               ["steps", "steps", "steps"]]
+FOCUS = ("try_lock", "lock", "unlock", "is_locked", "_run_step_resource", "_run_steps_resource", "_stream_steps_resource", "streamer",
+         "release")
 START, STOP, DT = 1.0, 6.0, 1.0
 
 
@@ -84,7 +93,10 @@ def run_case(case):
         chooser = SC.list_chooser(case["choices"])
     else:
         chooser = SC.preempt_chooser({int(k): v for k, v in case["preempt"].items()})
-    sch = SC.Scheduler(TRACE_FILES, chooser, expected=len(reqs), timeout=30.0)
+    if case.get("focus") == "lock":
+        sch = SC.Scheduler(TRACE_FILES, chooser, expected=len(reqs), timeout=30.0, funcs=FOCUS_LOCK, first_only=("run_step",))
+    else:
+        sch = SC.Scheduler(TRACE_FILES, chooser, expected=len(reqs), timeout=30.0, funcs=FOCUS if case.get("focus") else None)
     results = [None] * len(reqs)
     if hasattr(inst, "_lock_guard"):
         inst._lock_guard = SC.CoopLock(sch)  # same mutex semantics, but a blocked thread yields the scheduler's turn
@@ -115,6 +127,7 @@ def run_case(case):
             else:
                 resp = client.post("/%s/stream-steps" % iid)
             data = resp.get_data(as_text=True)
+            resp.close()  # a WSGI server closes the response after the last chunk (runs call_on_close callbacks)
             try:
                 body = json.loads(data)
             except Exception:
@@ -190,7 +203,7 @@ def _body(ctx):
         ctx.extra["schedule_points_max"] = max(ctx.extra.get("schedule_points_max", 0), info["points"])
         ctx.case({"requests": case["requests"], "schedule": ("choice-list[%d]" % len(case["choices"])) if "choices" in case else case["preempt"],
                   "points": info["points"], "switches": info["trace"][:6]}, nontrivial=info["preemptions"] >= 1,
-                 labels=["reqs:" + "+".join(case["requests"]), "preemptions:%d" % min(info["preemptions"], 3)], key=case)
+                 labels=["reqs:" + "+".join(case["requests"]), "preemptions:%d" % min(info["preemptions"], 3)] + (["focus-mode"] if case.get("focus") else []), key=case)
         ctx.report(vs)
     return body
 
@@ -203,15 +216,29 @@ def _probe(reqs):
 def plan(tier):
     specs = []
     lists = LISTS
-    per = 2
+    per = 1
     for i in range(0, len(lists), per):
         specs.append({"kind": "one", "lists": lists[i:i + per]})
     pairs2 = [["steps", "steps"], ["step", "steps"], ["steps", "stream"], ["stream", "stream"]] if tier == "quick" else [l for l in LISTS if len(l) == 2]
     for l in pairs2:
-        specs.append({"kind": "two", "reqs": l, "window": WINDOW if tier == "quick" else 80})
+        for part in range(3):
+            specs.append({"kind": "two", "reqs": l, "window": WINDOW if tier == "quick" else 80, "part": part, "of": 3})
     specs.append({"kind": "endings"})
+    if tier == "quick":
+        # 3 preemptions over the lock protocol with the first one at point 0 (hands the start to the second request)
+        for reqs in LOCK3_LISTS[:2]:
+            for part in range(4):
+                specs.append({"kind": "lock3", "reqs": reqs, "part": part, "of": 4, "first0": True})
+    if tier == "thorough":
+        for reqs in LOCK3_LISTS:
+            for part in range(4):
+                specs.append({"kind": "lock3", "reqs": reqs, "part": part, "of": 4})
     for i in range(3):
         specs.append({"kind": "rand", "n": 100 if tier == "quick" else 5000})
+    for i in range(1):
+        specs.append({"kind": "rand", "focus": True, "n": 300 if tier == "quick" else 10000})
+    for i in range(2):
+        specs.append({"kind": "rand", "segments": True, "n": 400 if tier == "quick" else 12000})
     return specs
 
 
@@ -232,9 +259,29 @@ def run_shard(spec, ctx):
 
         def cases():
             W = spec["window"]
+            k = 0
             for p1 in range(W):
                 for p2 in range(p1 + 1, p1 + W):
-                    yield {"requests": reqs, "preempt": {str(p1): 1, str(p2): 1}}
+                    if k % spec.get("of", 1) == spec.get("part", 0):
+                        yield {"requests": reqs, "preempt": {str(p1): 1, str(p2): 1}}
+                    k += 1
+        ctx.enum(cases(), body)
+        ctx.exhaustive = True
+    elif spec["kind"] == "lock3":
+        reqs = spec["reqs"]
+
+        def cases():
+            info0, _ = run_case({"requests": reqs, "preempt": {}, "focus": "lock", "presteps": spec.get("presteps", 0)})
+            P = info0["points"] + 2
+            k = 0
+            for p1 in (range(P) if not spec.get("first0") else range(1)):
+                for p2 in range(p1 + 1, P):
+                    for p3 in range(p2 + 1, P):
+                        for cs in itertools.product((1, 2), repeat=3):
+                            if k % spec["of"] == spec["part"]:
+                                yield {"requests": reqs, "focus": "lock", "presteps": spec.get("presteps", 0),
+                                       "preempt": {str(p1): cs[0], str(p2): cs[1], str(p3): cs[2]}}
+                            k += 1
         ctx.enum(cases(), body)
         ctx.exhaustive = True
     elif spec["kind"] == "endings":
@@ -249,7 +296,28 @@ def run_shard(spec, ctx):
                     yield {"requests": reqs, "preempt": {}, "presteps": pre}
         ctx.enum(cases(), body)
     else:
-        strat = st.fixed_dictionaries({"requests": st.sampled_from(LISTS),
-                                       "choices": st.lists(st.sampled_from([0, 0, 0, 0, 0, 0, 0, 0, 1, 2]), max_size=400),
-                                       "presteps": st.sampled_from([0, 0, 3, 5])})
+        if spec.get("segments"):
+            # preemption-bounded random search: 2-5 preemptions at generated distances (segment lengths), focus mode
+            triples = [["stream", "steps", "steps"], ["stream", "steps", "step"], ["steps", "stream", "steps"], ["stream", "stream", "steps"],
+                       ["steps", "steps", "steps"], ["steps", "step", "stream"]]
+
+            def to_plan(segs):
+                plan, pos = {}, 0
+                for gap, c in segs:
+                    pos += gap
+                    plan[str(pos)] = c
+                return plan
+            strat = st.fixed_dictionaries({"requests": st.sampled_from(triples), "focus": st.just(True),
+                                           "preempt": st.lists(st.tuples(st.integers(1, 60), st.sampled_from([1, 2])), min_size=2, max_size=5).map(to_plan),
+                                           "presteps": st.sampled_from([0, 3, 4, 5, 5])})
+        elif spec.get("focus"):
+            triples = [["stream", "steps", "steps"], ["stream", "steps", "step"], ["steps", "stream", "steps"], ["stream", "stream", "steps"],
+                       ["steps", "steps", "steps"], ["stream", "step", "step"]]
+            strat = st.fixed_dictionaries({"requests": st.sampled_from(triples), "focus": st.just(True),
+                                           "choices": st.lists(st.sampled_from([0, 0, 0, 0, 0, 1, 2]), max_size=200),
+                                           "presteps": st.sampled_from([0, 3, 4, 5])})
+        else:
+            strat = st.fixed_dictionaries({"requests": st.sampled_from(LISTS),
+                                           "choices": st.lists(st.sampled_from([0, 0, 0, 0, 0, 0, 0, 0, 1, 2]), max_size=400),
+                                           "presteps": st.sampled_from([0, 0, 3, 5])})
         ctx.hyp(strat, body, spec["n"])
